@@ -44,7 +44,7 @@ def build() -> Check:
         "every field is written, written and read under the same key, enum fields go .value <-> Enum(...), nested models go to_dict/inline <-> from_dict of the "
         "same class, a value the writer can emit as an empty dictionary is not treated as absent by a truthiness test, and the JSON variants convert exactly "
         "the datetime-annotated paths in both directions.",
-        ["value conversions inside one field (Enum(value), timestamp arithmetic beyond which paths are converted) are trusted",
+        ["value conversions inside one field (Enum(value)) and the arithmetic on the scalar timestamp are trusted; the datetime APIs used by the two scalar conversions are judged against a table of offset-dropping calls",
          "the wire form omits empty optional strings (allowed by the statement)"],
         "one obligation per (rule, class, field)",
     )
@@ -178,6 +178,32 @@ def build() -> Check:
             ok = fn is not None and f".{inner}(" in ast.unparse(fn.node)
             ck.ob("R4.json-variant-delegates", fn_construct(fn) if fn else f"execution.py:{cname}.{m}", ok,
                   f"{cname}.{m} must delegate to the nested {inner} (otherwise timestamps stay datetimes / integers)")
+    # R4 the two scalar conversions preserve the instant: a datetime names an instant together with its UTC offset, and the APIs below
+    # either drop the offset or reinterpret the wall-clock time in another zone (API-misuse table; arithmetic on the scalar is trusted)
+    tc = prog.cls("lambda_service", "TimestampConverter")
+    DENY = {"timetuple": "ignores tzinfo: an aware datetime is read as if its wall-clock time were UTC / local",
+            "mktime": "interprets the tuple in the host's local zone", "replace": "replaces the offset without adjusting the instant",
+            "utcfromtimestamp": "returns a naive datetime (compares unequal to / cannot be compared with the aware original)",
+            "utcnow": "naive", "toordinal": "drops the time of day", "date": "drops the time of day", "strftime": "formatting round trip",
+            "isoformat": "formatting round trip", "time": "drops the date / offset"}
+    ALLOW = {"timestamp", "utctimetuple", "timegm", "astimezone", "fromtimestamp", "int", "round", "float", "timedelta", "total_seconds", "divmod", "floor"}
+    for m in ("to_unix_millis", "from_unix_millis"):
+        fn = tc.methods.get(m)
+        if fn is None:
+            raise AnalysisError(f"TimestampConverter.{m} not found")
+        calls = [c for c in ast.walk(fn.node) if isinstance(c, ast.Call)]
+        badc = []
+        for c in calls:
+            nm = c.func.attr if isinstance(c.func, ast.Attribute) else (c.func.id if isinstance(c.func, ast.Name) else "?")
+            if nm in DENY:
+                badc.append(f"`{ast.unparse(c)[:60]}`: {DENY[nm]}")
+            elif nm == "fromtimestamp" and not any(k.arg == "tz" for k in c.keywords) and len(c.args) < 2:
+                badc.append(f"`{ast.unparse(c)[:60]}`: without tz= the result is a naive local datetime")
+            elif nm not in ALLOW:
+                raise AnalysisError(f"TimestampConverter.{m}: conversion call `{ast.unparse(c)[:60]}` is not in the table of datetime APIs (extend the table)")
+        ck.ob("R4.timestamp-conversion-preserves-instant", fn_construct(fn), not badc, "; ".join(badc) or f"{len(calls)} call(s)")
+        scale = {n.value for n in ast.walk(fn.node) if isinstance(n, ast.Constant) and isinstance(n.value, (int, float)) and n.value not in (0, 1)}
+        ck.ob("R4.timestamp-scale", fn_construct(fn), bool(scale & {1000, 1000.0, 0.001}), f"scaling constants {sorted(scale)}: the seconds<->milliseconds factor 1000 does not appear")
     return ck
 
 
